@@ -157,4 +157,58 @@ theorem analysis_only_adds_failure_partial (reqs : List (Constraint α × Nat)) 
       | nil => exact hl hlv
       | cons p rest => rw [hlv] at this; simp [levelResults] at this
 
+/-- C10.4 (partial), hypothesis restricted to the level calls that can occur: it is enough that the
+plain and the analysed run of level `p` agree (up to forgetting the analysis) when `p` is the `j`-th
+level of the request list and the call index is `j` — not for every priority value and every call
+index as in `analysis_only_adds_failure_partial`.  (Still stronger than "at every level the plain
+solve attempts": levels after the first unsatisfied one are included.) -/
+theorem analysis_only_adds_failure_levels (reqs : List (Constraint α × Nat)) (g : List (Nat × α))
+    (cfg : Config α) (solve : LinSolve α) (svd : Svd α)
+    (hok : ∀ j p, (levels (enumerate reqs))[j]? = some p →
+      levelRun (enumerate reqs) g cfg solve none j p =
+        (levelRun (enumerate reqs) g cfg solve (some svd) j p).map strip) (hne : reqs ≠ []) :
+    solveWithPriority reqs g cfg solve none =
+      (solveWithPriority reqs g cfg solve (some svd)).map strip := by
+  have hne' : reqs.isEmpty = false := by cases reqs <;> simp_all
+  unfold solveWithPriority
+  rw [hne']
+  simp only [Bool.false_eq_true, if_false]
+  rw [priorityLoop_eq_loopOver, priorityLoop_eq_loopOver]
+  have hmap : ∀ (lvls : List Nat) (call : Nat),
+      (∀ j p, lvls[j]? = some p →
+        levelRun (enumerate reqs) g cfg solve none (call + j) p =
+          (levelRun (enumerate reqs) g cfg solve (some svd) (call + j) p).map strip) →
+      levelResults (enumerate reqs) g cfg solve none lvls call =
+        (levelResults (enumerate reqs) g cfg solve (some svd) lvls call).map (fun r => r.map strip) := by
+    intro lvls
+    induction lvls with
+    | nil => intro call _; rfl
+    | cons p rest ih =>
+      intro call h
+      have h0 := h 0 p (by simp)
+      simp only [Nat.add_zero] at h0
+      have hrest := ih (call + 1) (fun j q hq => by
+        have := h (j + 1) q (by simpa using hq)
+        rw [show call + (j + 1) = call + 1 + j by omega] at this
+        exact this)
+      simp [levelResults, h0, hrest]
+  rw [hmap (levels (enumerate reqs)) 0 (fun j p hj => by simpa using hok j p hj)]
+  have := loopOver_map (α := α) strip (fun _ => rfl)
+    (levelResults (enumerate reqs) g cfg solve (some svd) (levels (enumerate reqs)) 0) none
+  simp only [Option.map_none] at this
+  rw [this]
+  cases hres : loopOver (levelResults (enumerate reqs) g cfg solve (some svd)
+      (levels (enumerate reqs)) 0) none with
+  | error f => simp [Except.map]
+  | ok v =>
+    cases v with
+    | some o => simp [Except.map]
+    | none =>
+      exfalso
+      have := loopOver_none_nil_only _ hres
+      have hl := levels_ne_nil reqs hne
+      cases hlv : levels (enumerate reqs) with
+      | nil => exact hl hlv
+      | cons p rest => rw [hlv] at this; simp [levelResults] at this
+
 end Ezpz.C10
